@@ -469,11 +469,98 @@ fn close_offsets(rep: &mut Report) {
     }
 }
 
+/// Shutdown requested while the daemon thread is blocked WRITING a reply: the peer floods
+/// reply-bearing requests without reading until both socket buffers are full. (Sequential; the
+/// 5 s bound only limits the failing case - a daemon thread that is never woken.)
+fn shutdown_while_writing(rep: &mut Report) {
+    use std::io::Read;
+    let case = json!({"check":"C16","part":"shutdown_while_writing"});
+    let be = TBackend::<VringRwLock, ()>::new(Cfg::default());
+    let mem = vm_memory::GuestMemoryAtomic::new(vm_memory::GuestMemoryMmap::<()>::new());
+    let mut daemon = VhostUserDaemon::new("vmc-daemon".into(), be.clone(), mem).unwrap();
+    let path = format!("/tmp/vmc-c16-{}-flood.sock", std::process::id());
+    let _ = std::fs::remove_file(&path);
+    let mut listener = vhost::vhost_user::Listener::new(&path, true).unwrap();
+    let s = UnixStream::connect(&path).unwrap();
+    daemon.start(&mut listener).unwrap();
+    let handle = daemon.shutdown_handle();
+    s.set_nonblocking(true).unwrap();
+    let req = message(GET_FEATURES, F_VERSION, &[]);
+    // flood until nothing more can be written for 100 ms: the daemon no longer reads, because it is
+    // blocked writing replies nobody consumes
+    let mut sent = 0usize;
+    let mut idle = std::time::Instant::now();
+    let t0 = std::time::Instant::now();
+    while idle.elapsed().as_millis() < 100 && t0.elapsed().as_secs() < 20 {
+        // SAFETY: plain send on our socket.
+        let n = unsafe { libc::send(s.as_raw_fd(), req.as_ptr() as *const libc::c_void, req.len(), libc::MSG_DONTWAIT | libc::MSG_NOSIGNAL) };
+        if n == req.len() as isize {
+            sent += 1;
+            idle = std::time::Instant::now();
+        } else {
+            std::thread::sleep(std::time::Duration::from_millis(1));
+        }
+    }
+    rep.evaluations += 1;
+    rep.transitions += 1;
+    rep.extra.insert("blocked_writer_requests_sent".into(), json!(sent));
+    if let Some(h) = &handle {
+        h.shutdown();
+    }
+    let (tx, rx) = std::sync::mpsc::channel();
+    let t = std::thread::spawn(move || {
+        let r = daemon.wait();
+        let _ = tx.send(r.map_err(|e| format!("{e:?}")));
+        daemon
+    });
+    match rx.recv_timeout(std::time::Duration::from_secs(5)) {
+        Ok(Ok(())) => {
+            rep.outcome("blocked-writer:wait-ok");
+            rep.nontrivial += 1;
+        }
+        Ok(Err(e)) => {
+            rep.outcome("blocked-writer:wait-err");
+            rep.violation("C16:wait-fails-after-shutdown", &format!("shutdown requested while the daemon thread was writing replies ({sent} unread requests): wait() returned Err({e})"), case.clone());
+        }
+        Err(_) => {
+            rep.outcome("blocked-writer:wait-hangs");
+            rep.violation("C16:wait-never-returns:daemon-blocked-writing", &format!("shutdown requested while the daemon thread was blocked writing a reply ({sent} requests sent, none of the replies read): wait() did not return within 5 s"), case.clone());
+        }
+    }
+    // the peer drains what was written and must then see end-of-stream (bounded the same way)
+    s.set_nonblocking(false).unwrap();
+    let _ = s.set_read_timeout(Some(std::time::Duration::from_secs(3)));
+    let mut buf = [0u8; 65536];
+    let mut s2 = &s;
+    let eof = loop {
+        match s2.read(&mut buf) {
+            Ok(0) => break true,
+            Ok(_) => continue,
+            Err(e) if e.kind() == std::io::ErrorKind::ConnectionReset => break true,
+            Err(_) => break false,
+        }
+    };
+    if !eof {
+        rep.violation("C16:peer-does-not-see-end-of-stream", "after a shutdown request with unread replies the peer never reaches end-of-stream", case.clone());
+    }
+    drop(s); // releases a daemon thread that is still stuck
+    if let Ok(d) = t.join() {
+        drop(d);
+    }
+    drop(listener);
+    for fd in be.leaked_exit_fds.lock().unwrap().drain(..) {
+        // SAFETY: see DaemonH::drop.
+        unsafe { libc::close(fd) };
+    }
+    let _ = std::fs::remove_file(&path);
+}
+
 pub fn run(rep: &mut Report) {
     let thorough = rep.is_thorough();
     rep.exhaustive = false;
     install_panic_watch();
     close_offsets(rep);
+    shutdown_while_writing(rep);
     let scs = scenarios(thorough);
     let start = std::time::Instant::now();
     let total = if thorough { 2400.0 } else { 90.0 };
@@ -498,7 +585,7 @@ pub fn run(rep: &mut Report) {
     rep.extra.insert("scenarios".into(), json!(done));
     rep.extra.insert("scenarios_total".into(), json!(scs.len()));
     rep.extra.insert("per_scenario".into(), json!(per_scenario));
-    rep.rule = "E2: for 0..=3 shutdown callers x peer behaviours {idle, header only, full request, 2 and 3 fragments, close at byte 0/5/12/15/after the request (more offsets at thorough), half-close (peer stops sending, keeps reading) at byte 0/5/12, invalid header, a request that is answered (shutdown before / after the reply is written), answered request then close}: all schedules of {daemon thread, shutdown callers (a point before the call and at the socket shutdown, i.e. between flag store and socket shutdown), peer script} with at most 2 (3 at thorough) preemptions; at quiescence the explorer performs wait(), reads the peer socket and starts a second connection on the same listener; in the '+waiter' scenarios (0..=2 callers) wait() is instead called by a real thread that enters it at any point of the schedule (before or after the shutdown requests / the disconnect) and blocks in the join. Sequential part: peer close (and half-close followed by reading) at every byte offset 0..=20 of a request x {start+wait, serve()} and the process's thread count after dropping all daemons. Non-trivial = schedules that preempt a runnable thread at least once / offsets whose result mapping was verified".into();
+    rep.rule = "E2: for 0..=3 shutdown callers x peer behaviours {idle, header only, full request, 2 and 3 fragments, close at byte 0/5/12/15/after the request (more offsets at thorough), half-close (peer stops sending, keeps reading) at byte 0/5/12, invalid header, a request that is answered (shutdown before / after the reply is written), answered request then close}: all schedules of {daemon thread, shutdown callers (a point before the call and at the socket shutdown, i.e. between flag store and socket shutdown), peer script} with at most 2 (3 at thorough) preemptions; at quiescence the explorer performs wait(), reads the peer socket and starts a second connection on the same listener; in the '+waiter' scenarios (0..=2 callers) wait() is instead called by a real thread that enters it at any point of the schedule (before or after the shutdown requests / the disconnect) and blocks in the join. Sequential part: peer close (and half-close followed by reading) at every byte offset 0..=20 of a request x {start+wait, serve()} the process's thread count after dropping all daemons, and a shutdown request while the daemon thread is blocked writing replies the peer does not read. Non-trivial = schedules that preempt a runnable thread at least once / offsets whose result mapping was verified".into();
     rep.assumptions.push("without a waiter thread wait() is executed by the explorer once the daemon thread has exited; 'would never return' is decided when the daemon thread is disabled forever; a thread blocked in the join is recognised through /proc (futex wait)".into());
 }
 
